@@ -164,6 +164,13 @@ fn id_hex(id: &[u8]) -> String {
     hx(id)
 }
 
+/// `oid()` and `ldk_channel_keys_id()` of a real `ChannelId` (both panic on ids of the wrong length)
+fn oid_ldk(id: &ChannelId) -> String {
+    let o = std::panic::catch_unwind(std::panic::AssertUnwindSafe(|| id.oid())).map(|v| v.to_string()).unwrap_or("panic".into());
+    let l = std::panic::catch_unwind(std::panic::AssertUnwindSafe(|| id.ldk_channel_keys_id())).map(|v| hx(&v)).unwrap_or("panic".into());
+    format!("oid={} ldk={}", o, l)
+}
+
 fn le_chan_id(peer: &[u8], dbid: u64) -> Vec<u8> {
     let mut v = peer.to_vec();
     v.extend_from_slice(&dbid.to_le_bytes());
@@ -239,6 +246,28 @@ impl Group for C18Unit {
                 format!("native_keys {} testnet {}", s1, "cd".repeat(65)),
                 format!("native_keys {} testnet {}", s1, hx(&Sha256::hash(&[0xcdu8; 65]).to_byte_array())),
             ],
+            // ChannelId constructors and accessors at their boundaries; slice_to_be64 around 2^31 / 2^32
+            vec![
+                format!("chanid {} 1", "02".repeat(33)),
+                format!("chanid {} 18446744073709551615", "02".repeat(33)),
+                format!("chanid {} 72057594037927936", "02".repeat(33)),
+                format!("chanid {}00 0", "02".repeat(32)),
+                "chanid_oid 0".to_string(),
+                "chanid_oid 258".to_string(),
+                "chanid_oid 18446744073709551615".to_string(),
+                "oid_of 0102030405060708".to_string(),
+                "oid_of 01020304050607".to_string(),
+                "oid_of".to_string() + " " + &"07".repeat(32),
+                "oid_of".to_string() + " " + &"07".repeat(33),
+                "be64 000000007fffffff".to_string(),
+                "be64 0000000080000000".to_string(),
+                "be64 00000000ffffffff00".to_string(),
+                "be64 0000000100000000".to_string(),
+                "be64 ffffffffffffffff".to_string(),
+                "be64 01020304050607".to_string(),
+                format!("native_keys {} testnet {}", s1, "02".repeat(33) + "0100000000000000"),
+                format!("tree {} 281474976710655 3", s1),
+            ],
         ]
     }
     fn gen_case(&self, rng: &mut Rng, tier: Tier) -> Vec<String> {
@@ -248,7 +277,50 @@ impl Group for C18Unit {
         let seed = rng.bytes(seedlen);
         let cseed = rng.bytes(32);
         for _ in 0..n {
-            match rng.below(10) {
+            match rng.below(12) {
+                10 | 11 => {
+                    // the ids the node API builds (ChannelId constructors), in pairs that differ in one place,
+                    // each followed by the key derivation for that id (distinctness monitor below)
+                    let mut peer = rng.bytes(33);
+                    if rng.chance(1, 4) { peer[32] = 0; }
+                    let oid = match rng.below(7) {
+                        0 => 0,
+                        1 => 1,
+                        2 => u64::MAX,
+                        3 => 1u64 << rng.below(64),
+                        4 => rng.below(1000),
+                        5 => rng.next() & 0xff00_0000_0000_00ff,
+                        _ => rng.next(),
+                    };
+                    let net = *rng.pick(&["bitcoin", "testnet", "signet", "regtest"]);
+                    match rng.below(5) {
+                        0 => {
+                            ops.push(format!("chanid_oid {}", oid));
+                            let mut id = vec![0u8; 24];
+                            id.extend_from_slice(&oid.to_le_bytes());
+                            ops.push(format!("native_keys {} {} {}", hx(&seed), net, hx(&id)));
+                        }
+                        1 => {
+                            let l = *rng.pick(&[0usize, 1, 7, 8, 9, 31, 32, 33, 41, 64]);
+                            ops.push(format!("oid_of {}", hx(&rng.bytes(l))));
+                            let l = *rng.pick(&[0usize, 1, 7, 8, 9, 32]);
+                            ops.push(format!("be64 {}", hx(&rng.bytes(l))));
+                        }
+                        _ => {
+                            ops.push(format!("chanid {} {}", hx(&peer), oid));
+                            ops.push(format!("native_keys {} {} {}", hx(&seed), net, hx(&le_chan_id(&peer, oid))));
+                            // a neighbour: same peer / other dbid, or other peer / same dbid
+                            let (p2, o2) = match rng.below(4) {
+                                0 => (peer.clone(), oid.wrapping_add(1)),
+                                1 => (peer.clone(), oid ^ (1u64 << rng.below(64))),
+                                2 => { let mut q = peer.clone(); let k = rng.below(33) as usize; q[k] ^= 1 << rng.below(8); (q, oid) }
+                                _ => { let mut q = peer.clone(); q[32] = (oid & 0xff) as u8; (q, oid >> 8) }
+                            };
+                            ops.push(format!("chanid {} {}", hx(&p2), o2));
+                            ops.push(format!("native_keys {} {} {}", hx(&seed), net, hx(&le_chan_id(&p2, o2))));
+                        }
+                    }
+                }
                 0 => {
                     let la = *rng.pick(&[0usize, 1, 32, 63, 64, 65, 130]);
                     let a = rng.bytes(la);
@@ -303,6 +375,8 @@ impl Group for C18Unit {
         let (mut saw_keys, mut saw_tree) = (false, false);
         // (style, seed, net) -> id -> material, for the distinctness monitor
         let mut seen: BTreeMap<String, BTreeMap<Vec<u8>, String>> = BTreeMap::new();
+        // HMAC key form of every id a ChannelId constructor produced in this case -> the request
+        let mut ids_seen: BTreeMap<Vec<u8>, String> = BTreeMap::new();
         for (i, op) in ops.iter().enumerate() {
             let t: Vec<&str> = op.split_whitespace().collect();
             let line = match t.as_slice() {
@@ -355,6 +429,66 @@ impl Group for C18Unit {
                         }
                     }
                     _ => "bad-op".into(),
+                },
+                [k @ ("chanid" | "chanid_oid"), rest @ ..] => {
+                    let built = match (*k, rest) {
+                        ("chanid", [p, o]) => match (unhx(p), o.parse::<u64>()) {
+                            (Some(peer), Ok(oid)) if peer.len() == 33 => {
+                                let mut pa = [0u8; 33];
+                                pa.copy_from_slice(&peer);
+                                Some((ChannelId::new_from_peer_id_and_oid(&pa, oid), oid, format!("peer {} oid {}", p, oid)))
+                            }
+                            _ => None,
+                        },
+                        ("chanid_oid", [o]) => o.parse::<u64>().ok().map(|oid| (ChannelId::new_from_oid(oid), oid, format!("oid {}", oid))),
+                        _ => None,
+                    };
+                    match built {
+                        None => "bad-op".into(),
+                        Some((id, oid, req)) => {
+                            co.tags.insert(format!("{}:len{}", k, id.inner().len()));
+                            let back = std::panic::catch_unwind(std::panic::AssertUnwindSafe(|| id.oid())).ok();
+                            if back != Some(oid) {
+                                co.violations.push(Violation {
+                                    kind: "channel-id-loses-request".into(),
+                                    desc: format!("ChannelId built for {} is {} and reports oid {:?}", req, hx(id.inner()), back),
+                                    at: i,
+                                });
+                            }
+                            // two different requests must give ids that HMAC (the HKDF salt) can tell apart
+                            if let Some(prev) = ids_seen.get(&hmac_key_norm(id.inner())) {
+                                if *prev != req {
+                                    co.violations.push(Violation {
+                                        kind: "channel-id-constructor-not-injective".into(),
+                                        desc: format!("requests [{}] and [{}] give ids with the same HMAC key form ({})", prev, req, hx(id.inner())),
+                                        at: i,
+                                    });
+                                }
+                            }
+                            // a CLN request with dbid 0 is refused by new_channel; LDK oid ids live in their own nodes
+                            if !(*k == "chanid" && oid == 0) {
+                                ids_seen.insert(hmac_key_norm(id.inner()), req);
+                            }
+                            format!("id={} {}", hx(id.inner()), oid_ldk(&id))
+                        }
+                    }
+                }
+                ["oid_of", idh] => match unhx(idh) {
+                    Some(idb) => {
+                        co.tags.insert(format!("oid_of:{}", if idb.len() < 8 { "short" } else if idb.len() == 32 { "len32" } else { "other" }));
+                        oid_ldk(&ChannelId::new(&idb))
+                    }
+                    None => "bad-op".into(),
+                },
+                ["be64", b] => match unhx(b) {
+                    Some(bs) => {
+                        co.tags.insert(format!("be64:{}", if bs.len() < 8 { "short" } else { "ok" }));
+                        match std::panic::catch_unwind(|| lightning_signer::util::byte_utils::slice_to_be64(&bs)) {
+                            Ok(v) => v.to_string(),
+                            Err(_) => "panic".into(),
+                        }
+                    }
+                    None => "bad-op".into(),
                 },
                 ["commit_secret", s, idx] => match (unhx(s), idx.parse::<u64>()) {
                     (Some(seed), Ok(idx)) if seed.len() == 32 => {
